@@ -60,6 +60,20 @@ def read_fault_family(rng, ident, kind):
     return scn.line("scn", ident, s, extra="nt=1 family=read-fault-%s expect=1:eof,2:eof,3:ok,8:eof,9:eof" % kind)
 
 
+def idle_family(rng, ident, v):
+    """a transport that has never written a frame (a peer that connects and leaves, a server that only ever received
+    notifications, a client closed before its first call): Close returns, may be repeated, and later operations fail"""
+    s = []
+    if v in (1, 3, 4):
+        s.append("run")
+    if v == 3:
+        s += [scn.feed_notify(100), "waithandlers/1", "finishall", "settle"]
+    if v == 4:
+        s += ["readerr/eof", "waitdone"]
+    s += ["close", "closewait", "settle", scn.call(8, nowait=True), "await/c8", scn.notify(9)]
+    return scn.line("scn", ident, s, extra="nt=1 family=idle-transport-%d expect=8:eof,9:eof" % v)
+
+
 def write_fail_family(rng, ident, after):
     s = ["writefail/%d" % after, scn.call(1, nowait=True), scn.notify(2, nowait=True), scn.call(3, nowait=True), "settle",
          scn.cancel(1), scn.cancel(3), "await/n2", "close", scn.call(8, nowait=True), "await/c8"]
@@ -108,6 +122,8 @@ def explore(ctx):
         for _ in range({"quick": 2, "thorough": 20, "search": 4}[tier]):
             for kind in ("eof", "op", "other", "optimeout", "deadline"):
                 lines.append(read_fault_family(rng, "r%d" % n, kind)); n += 1
+        for v in range(5):
+            lines.append(idle_family(rng, "i%d" % n, v)); n += 1
         for after in range(0, {"quick": 30, "thorough": 60, "search": 40}[tier], 1 if tier != "quick" else 2):
             lines.append(write_fail_family(rng, "w%d" % n, after)); n += 1
         for _ in range({"quick": 120, "thorough": 2500, "search": 400}[tier]):
